@@ -55,28 +55,21 @@ theorem charsOf_brk (ds : DataSource) (t : Text) (ocs : Classes) :
 
 /-- the per-character view of a well-formed text meets the hypotheses of layer 1 -/
 theorem charsCtx (ds : DataSource) (t : Text) (pl : Nat) (hpl : pl ≤ 1) (ocs : Classes)
-    (hB : NoInnerB (contract t ocs ON))
-    (hbc : ∀ s ∈ t.segs, (ds.brk s.cp).isSome = true → brkClassOK (ocs.getD s.start ON)) :
+    (hB : NoInnerB (contract t ocs ON)) :
     Ctx ds (unitize t) t.segs.length pl (charsOf ds t ocs) :=
   { hu := unitText_unitize t
     hpl := hpl
     hlen := by simp [charsOf]
     hB := by rw [charsOf_cls]; exact hB
-    hbrk := charsOf_brk ds t ocs
-    hbc := by
-      intro ch hch hb
-      simp only [charsOf, List.mem_map] at hch
-      obtain ⟨s, hs, rfl⟩ := hch
-      exact hbc s hs hb }
+    hbrk := charsOf_brk ds t ocs }
 
 /-- the per-character levels of the single-unit version of the text -/
 theorem paraLevels_unitize {ds : DataSource} (hweak : WeakInv ds) (t : Text) (pl : Nat) (hpl : pl ≤ 1)
     (ocs : Classes) (hB : NoInnerB (contract t ocs ON))
-    (hbc : ∀ s ∈ t.segs, (ds.brk s.cp).isSome = true → brkClassOK (ocs.getD s.start ON))
     (pure : Bool) (hpure : pure = true → ∀ x ∈ contract t ocs ON, pureClass x = true) :
     paraLevels ds pl pure ((contract t ocs ON).any isIsolateInitiator) (unitize t) (contract t ocs ON) =
       (Spec.paragraphLevels pl (charsOf ds t ocs), none) := by
-  have h := paraLevels_unit_flags hweak (charsCtx ds t pl hpl ocs hB hbc) pure (by
+  have h := paraLevels_unit_flags hweak (charsCtx ds t pl hpl ocs hB) pure (by
     intro hp ch hch
     apply hpure hp
     rw [← charsOf_cls ds t ocs]
@@ -86,38 +79,34 @@ theorem paraLevels_unitize {ds : DataSource} (hweak : WeakInv ds) (t : Text) (pl
 
 /-- UAX #9 assigns one level per character -/
 theorem specLevels_length {ds : DataSource} (hweak : WeakInv ds) (t : Text) (pl : Nat) (hpl : pl ≤ 1)
-    (ocs : Classes) (hB : NoInnerB (contract t ocs ON))
-    (hbc : ∀ s ∈ t.segs, (ds.brk s.cp).isSome = true → brkClassOK (ocs.getD s.start ON)) :
+    (ocs : Classes) (hB : NoInnerB (contract t ocs ON)) :
     (Spec.paragraphLevels pl (charsOf ds t ocs)).length = t.segs.length := by
-  have h2 := paraLevels_unitize hweak t pl hpl ocs hB hbc false (by intro h; cases h)
+  have h2 := paraLevels_unitize hweak t pl hpl ocs hB false (by intro h; cases h)
   have h3 := Props.C01.Base.paraLevels_length ds pl false ((contract t ocs ON).any isIsolateInitiator)
     (unitize t) (unitize_wf t) (contract t ocs ON)
   rw [h2] at h3
   exact h3
 
 /-- **Layer 3**: any well-formed text.  `ocs` are the paragraph's per-unit classes (uniform within
-    characters), `pl ≤ 1`; a paragraph separator only as the last character; bracket characters of a
-    sensible class; `pure` only for pure-LTR class lists.  The per-unit levels are the expansion of the
+    characters), `pl ≤ 1`; a paragraph separator only as the last character; `pure` only for pure-LTR class lists.  The per-unit levels are the expansion of the
     levels UAX #9 assigns to the characters, and nothing panics. -/
 theorem paraLevels_chars {ds : DataSource} (hweak : WeakInv ds) (t : Text) (hwf : t.WF) (pl : Nat) (hpl : pl ≤ 1)
     (ocs : Classes) (hlen : ocs.length = t.len) (hu : UniformOn t ocs)
     (hB : NoInnerB (contract t ocs ON))
-    (hbc : ∀ s ∈ t.segs, (ds.brk s.cp).isSome = true → brkClassOK (ocs.getD s.start ON))
     (pure : Bool) (hpure : pure = true → ∀ x ∈ contract t ocs ON, pureClass x = true) :
     paraLevels ds pl pure ((contract t ocs ON).any isIsolateInitiator) t ocs =
       (expand t (Spec.paragraphLevels pl (charsOf ds t ocs)), none) := by
   rw [paraLevels_expand ds pl pure _ t hwf ocs hlen hu,
-    paraLevels_unitize hweak t pl hpl ocs hB hbc pure hpure]
+    paraLevels_unitize hweak t pl hpl ocs hB pure hpure]
 
 /-- … read at the character starts -/
 theorem paraLevels_chars_contract {ds : DataSource} (hweak : WeakInv ds) (t : Text) (hwf : t.WF) (pl : Nat)
     (hpl : pl ≤ 1) (ocs : Classes) (hlen : ocs.length = t.len) (hu : UniformOn t ocs)
     (hB : NoInnerB (contract t ocs ON))
-    (hbc : ∀ s ∈ t.segs, (ds.brk s.cp).isSome = true → brkClassOK (ocs.getD s.start ON))
     (pure : Bool) (hpure : pure = true → ∀ x ∈ contract t ocs ON, pureClass x = true) :
     contract t (paraLevels ds pl pure ((contract t ocs ON).any isIsolateInitiator) t ocs).1 0 =
       Spec.paragraphLevels pl (charsOf ds t ocs) := by
-  rw [paraLevels_chars hweak t hwf pl hpl ocs hlen hu hB hbc pure hpure]
-  exact contract_expand t hwf _ 0 (specLevels_length hweak t pl hpl ocs hB hbc)
+  rw [paraLevels_chars hweak t hwf pl hpl ocs hlen hu hB pure hpure]
+  exact contract_expand t hwf _ 0 (specLevels_length hweak t pl hpl ocs hB)
 
 end UBidi.Lemmas.C01Compose
